@@ -684,7 +684,101 @@ func genScenario(r *rand.Rand, maxProcs int) (bool, []genProc) {
 	return r.Intn(3) == 0, procs
 }
 
+// drain runs every enabled thread (lowest key first) until none is enabled
+func (h *supH) drain(emit func(string)) {
+	for i := 0; i < 400 && !h.dead; i++ {
+		en := h.enabledKeys()
+		if len(en) == 0 {
+			return
+		}
+		emit("s run " + en[0])
+	}
+}
+
+// directed fault-sequence scenarios: every dependency condition x every way the dependency can end,
+// with a dependent and a grand-dependent (process_completed_successfully on the dependent)
+func (h *supH) directed(emit func(string)) {
+	conds := []string{"c", "s", "h", "l", "t"}
+	modes := []string{"exit3", "exit0", "ready-exit0", "stop-running", "stop-pending", "startfail", "baddir", "restart-running", "shutdown"}
+	for _, gran := range []string{"coarse"} {
+		for _, cond := range conds {
+			for _, mode := range modes {
+				aflags := ""
+				if cond == "l" {
+					aflags += "l"
+				}
+				if cond == "h" {
+					aflags += "r"
+				}
+				if mode == "startfail" {
+					aflags += "f"
+				}
+				if mode == "baddir" {
+					aflags += "b"
+				}
+				if aflags == "" {
+					aflags = "-"
+				}
+				adeps := "-"
+				emit(fmt.Sprintf("sup %s 0", gran))
+				if mode == "stop-pending" {
+					emit("proc z no 0 - 0 0 0 -")
+					adeps = "z:c"
+				}
+				emit(fmt.Sprintf("proc a no 0 %s 0 0 0 %s", aflags, adeps))
+				emit(fmt.Sprintf("proc b no 0 - 0 0 0 a:%s", cond))
+				emit("proc c no 0 - 0 0 0 b:s")
+				if adeps != "-" {
+					emit("deps a " + adeps)
+				}
+				emit("deps b a:" + cond)
+				emit("deps c b:s")
+				emit("init")
+				emit("s call 0 run")
+				h.drain(emit)
+				switch mode {
+				case "exit3":
+					emit("s exit a 3")
+				case "exit0":
+					emit("s exit a 0")
+				case "ready-exit0":
+					if cond == "l" {
+						emit("s line a 1")
+					}
+					if cond == "h" {
+						emit("s probe a ok")
+					}
+					h.drain(emit)
+					emit("s exit a 0")
+				case "stop-running", "stop-pending":
+					emit("s call 1 stop a")
+				case "restart-running":
+					emit("s call 1 restart a")
+				case "shutdown":
+					emit("s call 1 shutdown")
+				}
+				h.drain(emit)
+				// let everything that is still alive finish
+				for i := 0; i < 8 && !h.dead; i++ {
+					al := h.aliveNames()
+					if len(al) == 0 {
+						break
+					}
+					emit(fmt.Sprintf("s exit %s 0", al[0]))
+					h.drain(emit)
+				}
+				if len(h.aliveNames()) == 0 && len(h.enabledKeys()) == 0 {
+					emit("end quiescent")
+				} else {
+					emit("end limit")
+				}
+			}
+		}
+	}
+}
+
 func (h *supH) Gen(r *rand.Rand, tier string, emit func(string)) {
+	h.directed(emit)
 	scen, maxProcs, maxSteps := 120, 4, 120
 	if tier == "thorough" {
 		scen, maxProcs, maxSteps = 1500, 5, 200
